@@ -57,6 +57,54 @@ def split_defs(sexp):
     return out
 
 
+def parse_sexp(text):
+    """Minimal s-expression reader: nested lists of atoms."""
+    stack, cur = [], []
+    tok = ""
+    for ch in text:
+        if ch in "() ":
+            if tok:
+                cur.append(tok)
+                tok = ""
+            if ch == "(":
+                stack.append(cur)
+                cur = []
+            elif ch == ")":
+                done = cur
+                cur = stack.pop()
+                cur.append(done)
+        else:
+            tok += ch
+    return cur[0] if cur else []
+
+
+def wf_violations(pre):
+    """The hypotheses of C18_desugar_never_panics, checked on the parser's output:
+    every meta has a file id, log strings are at most 230 bytes, named inputs come
+    with one argument each, definition bodies are blocks."""
+    bad = []
+    if re.search(r"@\d+:\d+:-", pre):
+        bad.append("a meta without file id")
+    for h in re.findall(r"\(str x([0-9a-f]*)\)", pre):
+        if len(h) > 460:
+            bad.append("a log string of %d bytes" % (len(h) // 2))
+
+    def walk(x):
+        if isinstance(x, list):
+            if x and x[0] == "anon" and isinstance(x[-1], list) and x[-1] and x[-1][0] == "names":
+                sig = [y for y in x if isinstance(y, list) and y and y[0] == "signals"][0]
+                if len(x[-1]) != len(sig):
+                    bad.append("an anonymous component with %d names for %d inputs" % (len(x[-1]) - 1, len(sig) - 1))
+            for y in x:
+                walk(y)
+    tree = parse_sexp(pre)
+    walk(tree)
+    for d in tree[1:]:
+        if not (isinstance(d[-1], list) and d[-1][0] == "block"):
+            bad.append("definition `%s` whose body is not a block" % d[1])
+    return bad
+
+
 def has_sugar(text):
     return [k.strip("( ") for k in SUGAR if k in text]
 
@@ -129,6 +177,13 @@ E2E_CALLS = [
     ("A3named", "A3", "", [("x1", "<==", "a"), ("x2", "<--", "b"), ("x3", "<==", "c")], True),
     ("P1named", "P1", "n", [("x1", "<==", "a + b")], True),
     ("B12named", "B12", "", [("x1", "<--", "a")], True),
+    # permuted named inputs with different operators (operator goes with the NAME)
+    ("A2perm_ops1", "A2", "", [("x2", "<--", "b"), ("x1", "<==", "a")], True),
+    ("A2perm_ops2", "A2", "", [("x2", "<==", "b"), ("x1", "<--", "a * a")], True),
+    ("A3perm_ops1", "A3", "", [("x3", "<--", "c"), ("x1", "<==", "a"), ("x2", "<==", "b")], True),
+    ("A3perm_ops2", "A3", "", [("x2", "<--", "b"), ("x3", "<==", "c"), ("x1", "<==", "a")], True),
+    ("A3perm_ops3", "A3", "", [("x3", "<==", "c"), ("x2", "<==", "b"), ("x1", "<--", "a")], True),
+    ("B22perm_ops", "B22", "", [("x2", "<--", "b"), ("x1", "<==", "a")], True),
 ]
 
 # positions: (label, number of values consumed, sugared statement with {S}, expansion with {V0} {V1} {V2};
@@ -330,7 +385,7 @@ def run(ctx, proofs):
     programs = corpus_programs() + c18gen.matrix() + random_programs(ctx, 400 if quick else 4000)
     recs = evaluate(ctx, HARNESS_BIN, MODEL_BIN, programs)
 
-    disagreements, failing, spec_diff = [], [], []
+    disagreements, failing, spec_diff, wf_fail = [], [], [], []
     stats = {"parse_error": 0, "templates_kept": 0, "templates_rejected": 0, "functions_kept": 0,
              "functions_rejected": 0, "host_kept_with_sugar_input": 0}
     kinds = {}
@@ -345,6 +400,9 @@ def run(ctx, proofs):
         d, m, s = rec["impl"], rec["model"], rec["spec"]
         if rec["roundtrip"] != d["PRE"]:
             disagreements.append({"label": rec["label"], "what": "AST wire round trip", "impl": d["PRE"][:300], "model": rec["roundtrip"][:300]})
+        w = wf_violations(d["PRE"])
+        if w:
+            wf_fail.append({"label": rec["label"], "input": rec["src"], "what": "; ".join(w)})
         if d["POST"] != m.get("POST") or (d["REP"] != m.get("REP") and d["POST"] != "panic"):
             disagreements.append({"label": rec["label"], "input": rec["src"], "what": "desugared AST / reports",
                                   "impl": (d["POST"] + " " + d["REP"])[-600:], "model": (m.get("POST", "") + " " + m.get("REP", ""))[-600:]})
@@ -424,6 +482,10 @@ def run(ctx, proofs):
             d0 = disagreements[0]
             ctx.violation("correspondence Model.Desugar vs syntax_sugar_remover.rs broken (%d programs, first: %s); the property held on every explored input"
                           % (len(disagreements), d0["label"]), {"broken": "correspondence desugar (Model.Desugar)", "first": d0, "count": len(disagreements)}, no_input=True)
+        elif wf_fail:
+            d0 = wf_fail[0]
+            ctx.violation("the parser's output violates a hypothesis of C18_desugar_never_panics (%d programs, first: %s: %s)"
+                          % (len(wf_fail), d0["label"], d0["what"]), {"broken": "hypothesis wf_template of C18_desugar_never_panics", "first": d0}, no_input=True)
         elif spec_diff:
             d0 = spec_diff[0]
             ctx.violation("Spec.ExpandSpec.expand_spec differs from the desugarer's output (%d programs, first: %s)" % (len(spec_diff), d0["label"]),
@@ -446,6 +508,7 @@ def run(ctx, proofs):
         "e2e_pairs": len(e2e), "e2e_differences": len(e2e_fail),
         "disagreements_model_vs_impl": len(disagreements),
         "spec_vs_impl_differences": len(spec_diff),
+        "wf_hypothesis_failures": len(wf_fail),
         "property_failures": len(failing),
         "samples": [disagreements[0]] if disagreements else [recs[len(recs) // 3]["label"], recs[len(recs) // 2]["label"], e2e[0][0], e2e[len(e2e) // 2][0]],
         "open_statements": OPEN,
@@ -456,18 +519,14 @@ def run(ctx, proofs):
         "the parser is outside the mirror: the model is fed the AST the real parser produced (printed by the harness before desugaring)",
         "codespan's line index is modelled as 'number of line starts <= offset'; line starts are computed from the source text by the driver",
         "end-to-end equality of findings (oracle ii) is observed on %d sugared/expanded pairs, not proved" % len(e2e),
-        "desugar_never_panics, desugar_refines_expand, desugar_errors_exact, desugar_metas_from_input are open statements: observed by the "
-        "correspondence (no panic on any explored program; expand_spec equal to the implementation on every accepted template), not proved",
+        "desugar_refines_expand, desugar_errors_exact are open statements: observed by the "
+        "correspondence (expand_spec equal to the implementation on every accepted template), not proved",
     ]
 
 
 OPEN = [
-    {"name": "C18_desugar_never_panics_full_statement",
-     "reason": "partially proved (C18_pass2_unreachable_never_fires: the unreachable!() and remove(0) sites of pass 2 never fire); the full statement needs the invariants 'every meta has a file id known to the library', 'log strings <= 230 bytes', 'declarations returned by pass 1 "
-               "are Declaration/Substitution' carried through both passes; not closed in the time box; observed: no panic on any explored program"},
     {"name": "C18_desugar_refines_expand_full_statement", "reason": "refinement proof not attempted in the time box; observed equal on every accepted template of the matrix"},
     {"name": "C18_desugar_errors_exact_full_statement", "reason": "not attempted; the report sets are compared exactly by the correspondence run"},
-    {"name": "C18_desugar_metas_from_input_full_statement", "reason": "not attempted; needed by C04"},
 ]
 
 
